@@ -6,7 +6,9 @@ form for structs inside streams) — so "the canonical encodings of a definition
 Tie: (a) the corpus is re-translated from the wowm sources on every run (tools/wowm.py + tools/corpus.py) into the
 model's closed syntax; (b) for every version-expanded message the driver generates canonical encodings (structure
 directed: every if / else-if / else arm, enumerators, flag subsets, array lengths, optional present/absent), the frames
-are fed to the libraries' public opcode readers and written back; bytes, consumed length and names must agree."""
+are fed to the libraries' public opcode readers and written back; bytes, consumed length and names must agree;
+(c) static, code side: tools/rust_codec.py translates every generated Rust reader of the current tree into the same closed syntax and the
+Lean driver decides `readerMatches` (Model/SemNorm.lean, Thm/C01b.lean) against the definition's program for every message."""
 import sys, os, re, collections
 sys.path.insert(0, os.path.join(os.path.dirname(__file__), "..", "lib"))
 from semcorr import *
@@ -125,7 +127,14 @@ def run(tier, seed):
     rep = Report(PID, tier, seed, "proof")
     po = proof_obligations("WowVerif.Thm.C01", ["wowdrv"])
     add_proof_failures(rep, po)
+    po_b = proof_obligations("WowVerif.Thm.C01b")      # the per-enumerator normal form is the same codec; what `progeq` means
+    add_proof_failures(rep, po_b)
+    po = dict(po, theorems=dict(po["theorems"], **po_b["theorems"]), obligations=po["obligations"] + po_b["obligations"], discharged=po["discharged"] + po_b["discharged"])
     conts = build_corpus(expanded=True)
+    # ---- code side, static: every generated Rust reader, translated on this run, must be the normal form of its definition
+    import readertie
+    tie_pairs = readertie.compute()
+    tie_cov = readertie.report(rep, PID, tie_pairs)
     rc, out, har = harness_build("world")
     if rc != 0:
         rep.violation("C01/harness-build", "harness does not build against /repo", {"log": out[-3000:]}, no_input=True)
@@ -193,6 +202,23 @@ def run(tier, seed):
                 hreq.append(f"codec {libname(c)} {dr} {fr.hex()}")
                 hmeta.append((c, dr, fr))
                 n_prim_frames += 1
+    # ---- boundary-length stream: "re-encodes to the same bytes" includes the header the writer chooses.  Messages that are one endless byte
+    # array (SMSG/CMSG_WARDEN_DATA in every expansion) are sent with the body lengths that put the header's size field on either side of
+    # 0x7FFF / 0x8000 (where the Wrath server header grows to 3 size bytes) and, for Wrath server messages, of 0xFFFF / 0x10000
+    n_boundary = 0
+    for c in ok:
+        if c["lib"] == "login" or c["tokens"][0] != "fe" or c["tokens"][2:] != ["int", "1", "le", "end"]:
+            continue
+        for dr in directions(c):
+            oplen = 4 if dr == "client" else 2
+            fields = [0x7FFD, 0x7FFE, 0x7FFF, 0x8000, 0x8001, 0x8002] + ([0xFFFF, 0x10000, 0x10001] if (libname(c) == "wrath" and dr == "server") else [])
+            for fld in fields:
+                body = bytes((prng.below(256) for _ in range(64))) * ((fld - oplen) // 64 + 1)
+                fr = frame(libname(c), dr, c["opcode"], body[:fld - oplen])
+                distinct.add((c["key"], dr, fr))
+                hreq.append(f"codec {libname(c)} {dr} {fr.hex()}")
+                hmeta.append((c, dr, fr))
+                n_boundary += 1
     xq, xm = [], []
     plain = [c for c in ok if "prim" not in c["tokens"]]
     for _ in range(300 if tier == "quick" else 3000):
@@ -312,14 +338,16 @@ def run(tier, seed):
     uns_kinds = collections.Counter(g.split()[1] if len(g.split()) > 1 else g for (_, g) in set(unsupported))
     covered = len({c["key"] for (c, _, _) in hmeta})
     rep.coverage = {
-        "obligations": po["obligations"], "discharged": po["discharged"],
-        "checker_cmd": "cd /verif/lean && lake build WowVerif.Thm.C01 && lake env lean WowVerif/Thm/C01.lean",
+        "obligations": po["obligations"] + tie_cov["readers_compared"], "discharged": po["discharged"] + tie_cov["readers_equal_to_normal_form_of_definition"],
+        "checker_cmd": "cd /verif/lean && lake build WowVerif.Thm.C01 WowVerif.Thm.C01b && lake env lean WowVerif/Thm/C01.lean",
         "trusted_base": TRUSTED_BASE_COMMON + ["tools/wowm.py + tools/corpus.py translate the wowm sources into the closed syntax of Model/Sem.lean (independent of wow_message_parser)",
-                                               "framing of the generated bodies follows C02's header rules (python)"],
+                                               "framing of the generated bodies follows C02's header rules (python)",
+                                               "tools/rust_codec.py translates the generated readers (read_inner / read) into the closed syntax: wire operations, loops and conditionals; NOT the value plumbing into the result, the size / allocation guards (C09 / C03), compressed readers or the hand-written readers of built-in types (`prim` leaves on both sides)"],
         "theorems": po["theorems"],
+        "reader_tie": tie_cov,
         "containers_total": len(conts), "containers_exercised": covered,
         "containers_outside_model": {"compressed (translator)": len(uns), **{f"built-in {k}": v for k, v in uns_kinds.items()}},
-        "evaluations": len(hreq) + len(zreq), "distinct_nontrivial": len(distinct), "frames_ok": n_ok, "compressed_stream": {"frames": len(zreq), "ok": n_zok}, "dictionary_stream": {"values_login": len(pool_login), "values_world": len(pool_world), "frames": len(dreq_), "identical": n_dict_ok},
+        "evaluations": len(hreq) + len(zreq), "distinct_nontrivial": len(distinct), "frames_ok": n_ok, "boundary_length_frames": n_boundary, "compressed_stream": {"frames": len(zreq), "ok": n_zok}, "dictionary_stream": {"values_login": len(pool_login), "values_world": len(pool_world), "frames": len(dreq_), "identical": n_dict_ok},
         "builtin_type_stream": {"frames": n_prim_frames, "reference_encoder_cross_checked_against_lean": n_x, "builtins_without_payload_generator": dict(prim_unsupported)},
         "rule": f"per version-expanded message: directed samples in which every steering variable cycles through every value it is compared with (and one it is not) / every single flag mask, none, all — so every if / else-if / else arm is taken — plus {ns} random samples (arrays 0..4 or 0..9 elements); both directions for msg; distinct = distinct (container, direction, frame)",
         "samples": [{"request": hreq[i][:200], "implementation": ho[i][:200]} for i in (0, len(hreq) // 2, len(hreq) - 1)],
